@@ -3,9 +3,16 @@
      rm, cr  RetryMax / CrossRetry of the cluster; level 0 RetryConnect / 1 RetryGet
      method  0 GET 1 POST 2 HEAD 3 PUT;  body 0 none, 1 "Content-Length: 0", 2 Content-Length body, 3 chunked body
      steps   outcome of each attempt that reaches a live backend: 0 reply 200, 1 close after reading the request head,
-             2 half a status line then close, 4 reply 500, 5 no reply until the response-header timeout fires
+             2 half a status line then close, 4 reply 500, 5 no reply until the response-header timeout fires;
+             returned by the fault-injecting transport after the backend received the request and replied: 11 bfe_http.WriteRequestError,
+             12 bfe_http.ReadRespHeaderError, 13 RespHeaderTimeoutError, 14 TransportBrokenError, 16 bfe_fcgi.WriteRequestError,
+             17 bfe_fcgi.ReadRespHeaderError, 18 an error of another type
    topology: sub-cluster 0 (weight 100) = backends 0 (live), 1 (refuses connections); sub-cluster 1 (weight 0) = 2 (live),
              3 (refuses); sub-cluster 2 (weight 0) = 4 (live); GSLB_BLACKHOLE weight 0.
+   optional 7th input element topo: 0 = the cluster above; 1 = a cluster whose primary sub-cluster (weight 100) has NO backend and
+             whose second sub-cluster (weight 0) has backends 5 (live) and 6 (refuses): every in-cluster selection fails, Balance
+             raises RetryTime to RetryMax and selects across sub-clusters (or returns ErrBkNoBackend when CrossRetry = 0);
+             2 = a cluster with two empty sub-clusters: Balance returns ErrBkCrossRetryBalance until the budget is exhausted.
    output: [[backend chosen per attempt] [backends that received request bytes, in order] status]
    The balancer's choices are left open: agree_C08 takes them from the observation and checks them against the model
    (in-cluster attempts in sub-cluster 0, cross attempts in another one) and predicts everything else. *)
@@ -14,21 +21,28 @@ From Bfe Require Import lib.Val model.Retry.
 Import ListNotations.
 Open Scope Z_scope.
 
-Record c08_input := mkI { i_cfg : cfg; i_req : req; i_steps : list Z }.
+(* step codes: 0,1,2,4,5 played by the fake backend; 11.. returned by the fault-injecting transport after a successful round trip *)
+Definition step_ok (x : Z) : bool :=
+  (x =? 0) || (x =? 1) || (x =? 2) || (x =? 4) || (x =? 5) || (x =? 11) || (x =? 12) || (x =? 13) || (x =? 14) || (x =? 16) || (x =? 17) || (x =? 18).
+
+Record c08_input := mkI { i_cfg : cfg; i_req : req; i_steps : list Z; i_topo : Z }.
+
+Definition decode_fields (rm cr level method body : Z) (s : val) (topo : Z) : option c08_input :=
+  match as_LZ s with
+  | Some steps =>
+    if (0 <=? rm) && (rm <=? 30) && (0 <=? cr) && (cr <=? 3) && (0 <=? level) && (level <=? 1)
+       && (0 <=? method) && (method <=? 3) && (0 <=? body) && (body <=? 3)
+       && forallb step_ok steps
+       && (length steps <=? 40)%nat && (0 <=? topo) && (topo <=? 2)
+    then Some (mkI (mkCfg rm cr level) (mkReq (method =? 0) (body <=? 1)) steps topo)
+    else None
+  | None => None
+  end.
 
 Definition decode_C08 (v : val) : option c08_input :=
   match v with
-  | VL [VZ rm; VZ cr; VZ level; VZ method; VZ body; s] =>
-    match as_LZ s with
-    | Some steps =>
-      if (0 <=? rm) && (rm <=? 5) && (0 <=? cr) && (cr <=? 3) && (0 <=? level) && (level <=? 1)
-         && (0 <=? method) && (method <=? 3) && (0 <=? body) && (body <=? 3)
-         && forallb (fun x => (x =? 0) || (x =? 1) || (x =? 2) || (x =? 4) || (x =? 5)) steps
-         && (length steps <=? 12)%nat
-      then Some (mkI (mkCfg rm cr level) (mkReq (method =? 0) (body <=? 1)) steps)
-      else None
-    | None => None
-    end
+  | VL [VZ rm; VZ cr; VZ level; VZ method; VZ body; s] => decode_fields rm cr level method body s 0
+  | VL [VZ rm; VZ cr; VZ level; VZ method; VZ body; s; VZ topo] => decode_fields rm cr level method body s topo
   | _ => None
   end.
 
@@ -36,16 +50,20 @@ Definition is_dead (b : Z) : bool := (b =? 1) || (b =? 3).
 Definition sub_of (b : Z) : Z := if b <=? 1 then 0 else if b <=? 3 then 1 else 2.
 
 (* outcome of each attempt, with the status the client gets if it is the last one *)
+Definition step_outcome (st : Z) : outcome * Z :=
+  if st =? 0 then (Ok, 200) else if st =? 4 then (Ok, 500)
+  else if (st =? 5) || (st =? 13) then (HdrTimeout, 500)
+  else if (st =? 11) || (st =? 16) then (WriteErr, 500)
+  else if st =? 14 then (Broken, 500)
+  else if st =? 18 then (Other, 500)
+  else (ReadHdrErr, 500).
+
 Fixpoint outs_of (choices : list Z) (steps : list Z) : list (outcome * Z) :=
   match choices with
   | [] => []
   | b :: rest =>
     if is_dead b then (ConnectErr, 500) :: outs_of rest steps
-    else
-      let st := match steps with x :: _ => x | [] => 0 end in
-      let o := if st =? 0 then (Ok, 200) else if st =? 4 then (Ok, 500)
-               else if st =? 5 then (HdrTimeout, 500) else (ReadHdrErr, 500) in
-      o :: outs_of rest (tl steps)
+    else step_outcome (match steps with x :: _ => x | [] => 0 end) :: outs_of rest (tl steps)
   end.
 
 Definition model_obs (i : c08_input) (choices : list Z) : option val :=
@@ -63,13 +81,42 @@ Definition model_obs (i : c08_input) (choices : list Z) : option val :=
     Some (VL [vLZ ch; vLZ (filter (fun b => negb (is_dead b)) ch); VZ status])
   else None.
 
+(* ---- topologies 1 and 2 (in-cluster selection always fails) ---- *)
+Definition is_dead_x (b : Z) : bool := b =? 6.
+Fixpoint outs_of_x (choices : list Z) (steps : list Z) : list (outcome * Z) :=
+  match choices with
+  | [] => []
+  | b :: rest =>
+    if is_dead_x b then (ConnectErr, 500) :: outs_of_x rest steps
+    else step_outcome (match steps with x :: _ => x | [] => 0 end) :: outs_of_x rest (tl steps)
+  end.
+
+Definition events_x (i : c08_input) (outs : list (outcome * Z)) : list event :=
+  if i_topo i =? 2 then repeat EvCrossBalance 20
+  else if cross_retry (i_cfg i) <=? 0 then [EvBalErr]
+  else map (fun p => EvAttempt true (fst p)) outs.
+
+Definition model_obs_x (i : c08_input) (choices : list Z) : option val :=
+  let outs := outs_of_x choices (i_steps i) in
+  let atts := attempts (i_cfg i) (i_req i) (events_x i outs) in
+  let n := length atts in
+  let ch := firstn n choices in
+  if forallb (fun b => (b =? 5) || (b =? 6)) ch && (length ch =? n)%nat
+  then
+    let status := match last (firstn n outs) (Other, 500) with (Ok, s) => s | _ => 500 end in
+    Some (VL [vLZ ch; vLZ (filter (fun b => negb (is_dead_x b)) ch); VZ status])
+  else None.
+
+Definition model_any (i : c08_input) (choices : list Z) : option val :=
+  if i_topo i =? 0 then model_obs i choices else model_obs_x i choices.
+
 (* default choices when there is no observation: alternate 0,1 in the primary sub-cluster, backend 2 across *)
 Definition default_choices (i : c08_input) : list Z :=
-  map (fun k => if Z.of_nat k <=? retry_max (i_cfg i) then Z.of_nat (Nat.modulo k 2) else 2) (seq 0 20).
+  map (fun k => if Z.of_nat k <=? retry_max (i_cfg i) then Z.of_nat (Nat.modulo k 2) else 2) (seq 0 40).
 
 Definition run_C08 (v : val) : val :=
   match decode_C08 v with
-  | Some i => match model_obs i (default_choices i) with Some o => o | None => VErr 1 end
+  | Some i => match model_any i (if i_topo i =? 0 then default_choices i else map (fun k => if Nat.even k then 6 else 5) (seq 0 40)) with Some o => o | None => VErr 1 end
   | None => VErr 0
   end.
 
@@ -81,7 +128,7 @@ Definition agree_C08 (iv o : val) : bool :=
       match as_LZ c with
       | Some ch =>
         (* one more (fictitious) choice is appended so that a missing attempt is noticed *)
-        match model_obs i (ch ++ [if Z.of_nat (length ch) <=? retry_max (i_cfg i) then 0 else 2]) with
+        match model_any i (ch ++ [if negb (i_topo i =? 0) then 5 else if Z.of_nat (length ch) <=? retry_max (i_cfg i) then 0 else 2]) with
         | Some m => val_eqb m o
         | None => false
         end
@@ -131,9 +178,33 @@ Definition prop_body (i : c08_input) (o : val) : bool :=
   | _ => false
   end.
 
+(* topologies 1 / 2: every attempt is a cross attempt (the primary sub-cluster has no backend) *)
+Definition prop_body_x (i : c08_input) (o : val) : bool :=
+  match o with
+  | VL [c; s; VZ status] =>
+    match as_LZ c, as_LZ s with
+    | Some ch, Some saw =>
+      let c := i_cfg i in
+      let safe := (retry_level c =? 1) && is_get (i_req i) && bodyless (i_req i) in
+      let n := Z.of_nat (length ch) in
+      (n <=? Z.min 20 (1 + retry_max c + cross_retry c))
+      (* at most CrossRetry + 1 attempts, none when cross retry is disabled or no sub-cluster has a backend *)
+      && (n <=? (if (i_topo i =? 2) || (cross_retry c <=? 0) then 0 else cross_retry c + 1))
+      && (fix rs (l : list Z) : bool :=
+            match l with a :: (_ :: _) as rest => (is_dead_x a || safe) && rs rest | _ => true end) ch
+      && (safe || (Z.of_nat (length saw) <=? 1))
+      && list_Z_eqb saw (filter (fun b => negb (is_dead_x b)) ch)
+      (* only backends of the other (non-blackhole) sub-cluster *)
+      && forallb (fun b => (b =? 5) || (b =? 6)) ch
+      && (100 <=? status)
+    | _, _ => false
+    end
+  | _ => false
+  end.
+
 Definition prop_C08 (iv o : val) : bool :=
   match decode_C08 iv with
-  | Some i => prop_body i o
+  | Some i => if i_topo i =? 0 then prop_body i o else prop_body_x i o
   | None => false
   end.
 
